@@ -4,14 +4,19 @@
     to the same chunks and a pure alias move nothing.  The moved fraction between two layouts
     of an axis lies in [0, 1], is 0 for pure splits and identical layouts."
    Statements only; proofs in theories/TransferFacts.v and theories/UnifyFacts.v.
-   Models: theories/Transfer.v (transfer_bytes overrides, exact integers / rationals) and
-   theories/Unify.v (moved_fraction).  Chunk sizes are known integers in the models; the NaN
+   Models: theories/Transfer.v and theories/Transfer2.v (transfer_bytes overrides, exact integers /
+   rationals; Transfer2.v: OverlapInternal, Stack, CumReduction, CumReductionBlelloch, Shuffle,
+   SlidingWindowReduction, MovingWindowReduction; proofs in theories/Transfer2Facts.v and
+   theories/Transfer2WindowFacts.v) and theories/Unify.v (moved_fraction).  Chunk sizes are known integers in the models; the NaN
    clause is checked by the harness on real nodes.
      nonneg_layout l  :=  every chunk of l is >= 0
      axis_ok old new  :=  nonneg_layout old /\ nonneg_layout new /\ zsum old = zsum new
                           (what _validate_rechunk establishes for every caller)
-     refines_b fine coarse = true  :=  rechunking coarse -> fine only SPLITS blocks *)
-From DA Require Import PyBase Slicing Unify UnifyFacts Transfer TransferFacts.
+     refines_b fine coarse = true  :=  rechunking coarse -> fine only SPLITS blocks
+     pos_layout l     :=  every chunk of l is > 0
+     wellformed (lo, hi)  :=  0 <= lo /\ lo <= hi
+     depth_ok (before, after)  :=  0 <= before /\ 0 <= after *)
+From DA Require Import PyBase Slicing Unify UnifyFacts Transfer TransferFacts Transfer2 Transfer2Facts Transfer2WindowFacts.
 Open Scope Z_scope.
 
 (* ---- moved_fraction (n, m) = n / m ------------------------------------------------ *)
@@ -145,6 +150,177 @@ Proof. exact alias_zero. Qed.
 Theorem C27_leaf_zero : forall out_blocks, default_transfer out_blocks [] = ((0, 1), (0, 1)).
 Proof. exact default_leaf_zero. Qed.
 
+(* ====================================================================================== *)
+(* The overrides of Transfer2.v.  `chunks` is x.chunks of the node's input (one layout per axis),
+   `axis` the position of the axis the node works along, itemsize = x.dtype.itemsize. *)
+
+(* the float quotient x.nbytes / n of Shuffle / CumReduction / CumReductionBlelloch is exact: it is
+   the byte size of one hyperplane along the axis (so the model's integer division loses nothing) *)
+Theorem C27_row_bytes_exact :
+  forall chunks axis itemsize,
+  (axis < length chunks)%nat -> zsum (nth axis chunks []) <> 0 ->
+  nbytes_of chunks itemsize / zsum (nth axis chunks []) = cross_section chunks axis itemsize.
+Proof. exact row_bytes_exact. Qed.
+
+(* ---- OverlapInternal (halo exchange); depths = one (before, after) per axis ----------- *)
+Theorem C27_overlap_wellformed :
+  forall chunks depths itemsize,
+  0 <= itemsize -> Forall nonneg_layout chunks -> Forall depth_ok depths ->
+  wellformed (overlap_transfer chunks depths itemsize).
+Proof. exact overlap_wellformed. Qed.
+
+(* zero where nothing moves: every axis has a single block or depth 0 -> min = 0 (max = x.nbytes:
+   the blocks themselves are fetched) *)
+Theorem C27_overlap_no_exchange_zero :
+  forall chunks depths itemsize,
+  Forall no_exchange (combine chunks depths) ->
+  overlap_transfer chunks depths itemsize = (0, nbytes_of chunks itemsize).
+Proof. exact overlap_no_exchange_zero. Qed.
+
+(* what min is: (before + after) hyperplanes per internal block boundary *)
+Theorem C27_overlap_one_axis :
+  forall chunks before after itemsize,
+  (2 <= length chunks)%nat -> (before, after) <> (0, 0) ->
+  fst (overlap_transfer [chunks] [(before, after)] itemsize) =
+  (before + after) * (Z.of_nat (length chunks) - 1) * itemsize.
+Proof. exact overlap_one_axis. Qed.
+
+(* ---- Stack ---------------------------------------------------------------------------- *)
+Theorem C27_stack_wellformed :
+  forall nbytes, Forall (fun b => 0 <= b) nbytes ->
+  wellformed (stack_transfer nbytes) /\ fst (stack_transfer nbytes) = 0.
+Proof. intros nbytes H. split; [exact (stack_wellformed nbytes H) | exact (stack_min_zero nbytes)]. Qed.
+
+(* ---- CumReduction (min = lo, max = the exact rational hn / hd) -------------------------- *)
+Theorem C27_cum_wellformed :
+  forall chunks axis itemsize lo hn hd,
+  0 <= itemsize -> Forall nonneg_layout chunks ->
+  cum_transfer chunks axis itemsize = Some (lo, (hn, hd)) ->
+  0 < hd /\ 0 <= lo /\ lo * hd <= hn.
+Proof. exact cum_wellformed. Qed.
+
+(* no ZeroDivisionError when the axis has at least one block *)
+Theorem C27_cum_total :
+  forall chunks axis itemsize,
+  nth axis chunks [] <> [] -> exists r, cum_transfer chunks axis itemsize = Some r.
+Proof. exact cum_total. Qed.
+
+(* zero where nothing moves: a single block along the axis carries nothing *)
+Theorem C27_cum_single_block :
+  forall chunks axis itemsize,
+  length (nth axis chunks []) = 1%nat ->
+  cum_transfer chunks axis itemsize = Some (0, (nbytes_of chunks itemsize, 1)).
+Proof. exact cum_single_block. Qed.
+
+(* the carried state: h * (k - 1) hyperplanes (h = 1 sequential, 3 Blelloch) *)
+Theorem C27_cum_carry_hyperplanes :
+  forall h chunks axis itemsize,
+  (axis < length chunks)%nat ->
+  cum_carry h chunks axis itemsize =
+  if zsum (nth axis chunks []) =? 0 then 0
+  else h * (Z.of_nat (length (nth axis chunks [])) - 1) * cross_section chunks axis itemsize.
+Proof. exact cum_carry_hyperplanes. Qed.
+
+(* ---- CumReductionBlelloch ---------------------------------------------------------------- *)
+Theorem C27_blelloch_wellformed :
+  forall chunks axis itemsize,
+  0 <= itemsize -> Forall nonneg_layout chunks ->
+  wellformed (blelloch_transfer chunks axis itemsize).
+Proof. exact blelloch_wellformed. Qed.
+
+Theorem C27_blelloch_single_block :
+  forall chunks axis itemsize,
+  length (nth axis chunks []) = 1%nat ->
+  blelloch_transfer chunks axis itemsize = (0, 2 * nbytes_of chunks itemsize).
+Proof. exact blelloch_single_block. Qed.
+
+(* ---- Shuffle: for EVERY grouping new_chunks of ANY index lists (not only what _new_chunks
+   builds; duplicates and out-of-range indices included) --------------------------------- *)
+Theorem C27_shuffle_wellformed :
+  forall chunks axis itemsize new_chunks,
+  0 <= itemsize -> Forall nonneg_layout chunks ->
+  wellformed (shuffle_transfer chunks axis itemsize new_chunks).
+Proof. exact shuffle_wellformed. Qed.
+
+(* zero where nothing moves: every output chunk is drawn from ONE source block -> min = 0 *)
+Theorem C27_shuffle_one_source_min_zero :
+  forall chunks axis itemsize new_chunks,
+  Forall (one_source (cumsum (nth axis chunks []))) new_chunks ->
+  fst (shuffle_transfer chunks axis itemsize new_chunks) = 0.
+Proof. exact shuffle_one_source_min_zero. Qed.
+
+Theorem C27_shuffle_empty_axis :
+  forall chunks axis itemsize new_chunks,
+  zsum (nth axis chunks []) = 0 -> shuffle_transfer chunks axis itemsize new_chunks = (0, 0).
+Proof. exact shuffle_empty_axis. Qed.
+
+(* ---- MovingWindowReduction (trailing window): positive chunks along the sliding axis, window >= 1
+   (supports_native_moving_window establishes positive chunks and window >= 2) ---------------- *)
+Theorem C27_moving_wellformed :
+  forall chunks axis itemsize window,
+  0 <= itemsize -> Forall nonneg_layout chunks -> pos_layout (nth axis chunks []) -> 1 <= window ->
+  wellformed (moving_transfer chunks axis itemsize window).
+Proof. exact moving_wellformed. Qed.
+
+(* zero where nothing moves: a single block *)
+Theorem C27_moving_single_block :
+  forall chunks axis itemsize window c,
+  nth axis chunks [] = [c] ->
+  moving_transfer chunks axis itemsize window = (0, c * cross_section chunks axis itemsize).
+Proof. exact moving_single_block. Qed.
+
+Theorem C27_supports_moving_two_blocks :
+  forall chunks window,
+  supports_moving chunks window = true -> (2 <= length chunks)%nat /\ 2 <= window.
+Proof. exact supports_moving_two_blocks. Qed.
+
+(* ---- SlidingWindowReduction: non-negative chunks (zero-size chunks allowed), window >= 1 ----- *)
+Theorem C27_sliding_wellformed :
+  forall chunks axis itemsize window,
+  0 <= itemsize -> Forall nonneg_layout chunks -> 1 <= window ->
+  wellformed (sliding_transfer chunks axis itemsize window).
+Proof. exact sliding_wellformed. Qed.
+
+(* per block (what the proof rests on): for every output-emitting row (out_len > 0) of block i
+     i <= b <= e < numblocks, 0 <= band_offset, band_offset + out_len <= sum(chunks[b : e + 1]),
+     chunks[i] <= window - 1 -> i < b, and starts[i] < sum(chunks) - window + 1
+   (sw_row_ok / sw_rows_ok in theories/Transfer2WindowFacts.v) *)
+Theorem C27_sliding_plan_rows :
+  forall full window, nonneg_layout full -> 1 <= window ->
+  sw_rows_ok full window 0 (sliding_plan full window).
+Proof. exact sliding_plan_rows. Qed.
+
+(* inside the constructor's guard every output-emitting block has its band strictly to the right
+   (b > i): `middles = (b - i - 1) * cross` is >= 0 and the block itself is never counted
+     sw_rows_right i ((out_len, _, b, _) :: rows) := (out_len <= 0 \/ i < b) /\ sw_rows_right (i + 1) rows *)
+Theorem C27_sliding_guard_band_right :
+  forall full window,
+  supports_sliding full window = true -> sw_rows_right 0 (sliding_plan full window).
+Proof. exact sliding_guard_band_right. Qed.
+
+Theorem C27_sliding_window_too_long :
+  forall chunks axis itemsize window,
+  zsum (nth axis chunks []) < window -> sliding_transfer chunks axis itemsize window = (0, 0).
+Proof. exact sliding_window_too_long. Qed.
+
+(* the constructor's guard supports_native_sliding_window accepts only layouts with >= 2 blocks ... *)
+Theorem C27_supports_sliding_two_blocks :
+  forall chunks window,
+  supports_sliding chunks window = true -> (2 <= length chunks)%nat /\ 2 <= window.
+Proof. exact supports_sliding_two_blocks. Qed.
+
+(* ... and outside it the clause "a single block moves nothing" is FALSE of the faithful model:
+   with one block the band is the block itself (b = e = i), `middles = (b - i - 1) * cross` is
+   -cross, and min = (n - 1) * cross.  Replayed:
+   SlidingWindowReduction(da.zeros((5, 3), chunks=((5,), (2, 1))).expr, 2, 0, 2, False, "sum",
+   np.dtype("f8")).transfer_bytes == (96.0, 216.0).  Not reachable through the public API (the
+   guard rejects single-block axes); the task layer uses range(i + 1, b), i.e. max(0, b - i - 1). *)
+Theorem C27_sliding_single_block_moves_refuted :
+  exists chunks axis itemsize window,
+    length (nth axis chunks []) = 1%nat /\ 1 <= window <= zsum (nth axis chunks []) /\
+    sliding_transfer chunks axis itemsize window = (96, 216).
+Proof. exact sliding_single_block_moves. Qed.
+
 (* ---- the hypotheses are satisfiable on non-trivial inputs, and are needed -------------- *)
 Example C27_ex_stage_doc : rechunk_stage_transfer [[4; 6]] [[5; 5]] 8 = Some (8, 136).
 Proof. vm_compute. reflexivity. Qed.
@@ -189,6 +365,47 @@ Proof. vm_compute. reflexivity. Qed.
 Example C27_ex_split : refines_b [2; 2; 6] [4; 6] = true /\ moved_fraction [4; 6] [2; 2; 6] = (0, 10).
 Proof. vm_compute. split; reflexivity. Qed.
 
+(* Transfer2.v *)
+Example C27_ex_overlap : overlap_transfer [[2; 1; 3; 1]; [2; 1]] [(1, 2); (1, 1)] 8 = (328, 928).
+Proof. vm_compute. reflexivity. Qed.
+Example C27_ex_overlap_single_blocks :
+  Forall no_exchange (combine [[7]; [2; 1]] [(1, 2); (0, 0)]) /\ overlap_transfer [[7]; [2; 1]] [(1, 2); (0, 0)] 8 = (0, 168).
+Proof. split; [repeat constructor; cbn; (lia || tauto) | vm_compute; reflexivity]. Qed.
+Example C27_ex_stack : stack_transfer [168; 168; 84] = (0, 420).
+Proof. vm_compute. reflexivity. Qed.
+(* CumReduction over 4 blocks: min = 3 hyperplanes = 72, max = 2256 / 4 = 564 *)
+Example C27_ex_cum : cum_transfer [[2; 1; 3; 1]; [2; 1]] 0 8 = Some (72, (2256, 4)).
+Proof. vm_compute. reflexivity. Qed.
+Example C27_ex_blelloch : blelloch_transfer [[2; 1; 3; 1]; [2; 1]] 0 8 = (216, 552).
+Proof. vm_compute. reflexivity. Qed.
+Example C27_ex_shuffle_new_chunks : shuffle_new_chunks 3 [[6; 5; 2]; [4; 1]; [3; 0]; [2; 2; 2; 2; 0; 1; 6]]
+  = Some [[6; 5; 2]; [4; 1]; [3; 0]; [2; 2; 2]; [2; 0; 1]; [6]].
+Proof. vm_compute. reflexivity. Qed.
+Example C27_ex_shuffle : shuffle_transfer [[2; 1; 3; 1]; [2; 1]] 0 8 [[6; 5; 2]; [4; 1]; [3; 0]] = (96, 528).
+Proof. vm_compute. reflexivity. Qed.
+Example C27_ex_shuffle_one_source :
+  Forall (one_source (cumsum [2; 1; 3; 1])) [[1; 0; 0]; [5; 3]] /\ shuffle_transfer [[2; 1; 3; 1]; [2; 1]] 0 8 [[1; 0; 0]; [5; 3]] = (0, 120).
+Proof. split; [repeat constructor; [exists 0 | exists 2]; repeat constructor | vm_compute; reflexivity]. Qed.
+Example C27_ex_sliding_plan : sliding_plan [2; 1; 3; 1] 3 = [(2, 0, 1, 2); (1, 1, 2, 2); (2, 2, 2, 3); (0, 0, 3, 3)].
+Proof. vm_compute. reflexivity. Qed.
+Example C27_ex_sliding : sliding_transfer [[2; 1; 3; 1]; [2; 1]] 0 8 3 = (168, 384).
+Proof. vm_compute. reflexivity. Qed.
+Example C27_ex_supports_sliding : supports_sliding [2; 1; 2; 1] 3 = true /\ supports_sliding [2; 1; 3; 1] 3 = false /\ supports_sliding [5] 2 = false.
+Proof. vm_compute. repeat split; reflexivity. Qed.
+Example C27_ex_moving_plan : moving_plan [2; 1; 3; 1] 3 = [(0, 2, 0, None, 0); (2, 1, 0, Some (0, 0), 0); (3, 3, 1, Some (0, 2), 0); (6, 1, 1, Some (2, 2), 0)].
+Proof. vm_compute. reflexivity. Qed.
+Example C27_ex_moving : moving_transfer [[2; 1; 3; 1]; [2; 1]] 0 8 3 = (216, 432).
+Proof. vm_compute. reflexivity. Qed.
+(* many size-1 blocks under a long window: 9 fully covered middle blocks for the last block *)
+Example C27_ex_moving_middles : nth 11 (moving_plan [1; 1; 1; 1; 1; 1; 1; 1; 1; 1; 1; 1] 11) (0, 0, 0, None, 0) = (11, 1, 0, Some (1, 1), 9).
+Proof. vm_compute. reflexivity. Qed.
+Example C27_ex_supports_moving : supports_moving [2; 1; 2; 1] 3 = true /\ supports_moving [2; 1; 3; 1] 3 = false.
+Proof. vm_compute. split; reflexivity. Qed.
+(* the hypothesis is needed: a negative depth is ill-formed (window < 1 is outside the model: the real
+   code then indexes starts[-1]) *)
+Example C27_ex_overlap_negative_depth : overlap_transfer [[2; 2]] [(-1, 0)] 8 = (-8, 40).
+Proof. vm_compute. reflexivity. Qed.
+
 Print Assumptions C27_moved_fraction_range.
 Print Assumptions C27_moved_fraction_zero_same.
 Print Assumptions C27_moved_fraction_zero_split.
@@ -208,3 +425,26 @@ Print Assumptions C27_blockwise_wellformed.
 Print Assumptions C27_default_wellformed.
 Print Assumptions C27_alias_zero.
 Print Assumptions C27_leaf_zero.
+Print Assumptions C27_row_bytes_exact.
+Print Assumptions C27_overlap_wellformed.
+Print Assumptions C27_overlap_no_exchange_zero.
+Print Assumptions C27_overlap_one_axis.
+Print Assumptions C27_stack_wellformed.
+Print Assumptions C27_cum_wellformed.
+Print Assumptions C27_cum_total.
+Print Assumptions C27_cum_single_block.
+Print Assumptions C27_cum_carry_hyperplanes.
+Print Assumptions C27_blelloch_wellformed.
+Print Assumptions C27_blelloch_single_block.
+Print Assumptions C27_shuffle_wellformed.
+Print Assumptions C27_shuffle_one_source_min_zero.
+Print Assumptions C27_shuffle_empty_axis.
+Print Assumptions C27_moving_wellformed.
+Print Assumptions C27_moving_single_block.
+Print Assumptions C27_supports_moving_two_blocks.
+Print Assumptions C27_sliding_wellformed.
+Print Assumptions C27_sliding_plan_rows.
+Print Assumptions C27_sliding_guard_band_right.
+Print Assumptions C27_sliding_window_too_long.
+Print Assumptions C27_supports_sliding_two_blocks.
+Print Assumptions C27_sliding_single_block_moves_refuted.
